@@ -1,5 +1,6 @@
 """C18 - selection primitives (rand_argmax / rand_argmin / simple_batch)."""
 import ast
+from ..astutil import inline_temporaries as _it
 import copy
 
 from ..astutil import FuncTree, dominates, inline_temporaries, expand_delegation
@@ -162,7 +163,7 @@ def run(p, report, tier):
                detail=f"picks in `{res}`")
     # --- definite assignment
     for f in (fa, fi, sb):
-        da = DefiniteAssignment(f.node).run()
+        da = DefiniteAssignment(_it(f.node)).run()
         report.add("R1.7", f.qual, "all locals bound before use", f"{f.file}:{f.node.lineno}", not da.reports,
                    detail="; ".join(f"{k} unbound" for k in da.reports))
     report.assumptions += ["tie fairness over seeds and optimality as numbers are not decided"]
